@@ -91,6 +91,9 @@ def run(ctx):
         # vout and txout must come from the same enumerate().next() call
         nx_v = {x for x in b.slice_of([c.args[0]]).calls if x.is_('re:Enumerate.*::next$')}
         nx_s = {x for x in sl.calls if x.is_('re:Enumerate.*::next$')}
+        # precisely: the bytes recorded are as_bytes() of that script on every path — not, say, an empty slice for some outputs (seeded C17-d)
+        exact = bool(os_) and all(o.kind == 'call' and o.call.is_('re:Script::as_bytes$|ScriptBuf::as_bytes$') for o in os_)
+        ctx.ob('R17.4', b.n, 'the recorded bytes are script_pubkey.as_bytes() on every path (no output is recorded with a different or empty script)', exact, f'{[repr(o) for o in os_]}', where(b, c.line))
         ctx.ob('R17.4', b.n, 'output_utxo_entries[vout] <- tx.output[vout].script_pubkey (same enumerate element)', same and bool(nx_v & nx_s), 'script of a different output is recorded', where(b, c.line))
       else:
         ctx.ob('R17.4', b.n, 'fetched input entry <- script_pubkey of the fetched txout', sl.has_call('re:broadcast::Receiver.*::blocking_recv$') or 'txout' in sl.var_names(),
@@ -141,7 +144,8 @@ def _r17_5(ctx):
 
 
 # sensitivity pack (thorough tier): each seeded edit must be reported by the named rule instance
-MUTANTS = [{'name': 'seeded-C17-a', 'patch': 'C17-a/patch.diff', 'expect': ('R17.3', 'index_transaction_output_script_pubkeys', 'SCRIPT_PUBKEY_TO_OUTPOINT')},
+MUTANTS = [{'name': 'seeded-C17-d', 'patch': 'C17-d/patch.diff', 'expect': ('R17.4', 'index_transaction_output_script_pubkeys', 'as_bytes() on every path')},
+           {'name': 'seeded-C17-a', 'patch': 'C17-a/patch.diff', 'expect': ('R17.3', 'index_transaction_output_script_pubkeys', 'SCRIPT_PUBKEY_TO_OUTPOINT')},
            {'name': 'seeded-C17-b', 'patch': 'C17-b/patch.diff', 'expect': ('R17.5', 'open_with_event_sender', 'first_index_height')}]
 
 
